@@ -3922,4 +3922,194 @@ theorem replace_residual_cut (S : Schema) (hdet : PM.C11.detB S = true) (hfill :
     | addNodeMark _ _ => exact hs
     | removeNodeMark _ _ => exact hs
 
+/-! #### editing histories: structural, node-level and mark operations, deletions, typing, pasted slices -/
+
+/-- what `Transform.replace(from, to, slice)` appended to the history: nothing (then the document is unchanged), or
+    the one step `replace_step` answered on the current document, applied -/
+theorem replaceOp_recorded (S : Schema) (tr tr1 : Tr) (hlen : tr.steps.length = tr.docs.length) (f t : Nat)
+    (sl : Slice) (h : tr.runOp S (.replace f t sl) = some tr1) :
+    (appended tr tr1 = [] ∧ tr1.doc = tr.doc) ∨
+    ∃ s, replaceStep S tr.doc f t sl = .ok (some s) ∧ appended tr tr1 = [(s, tr.doc)] ∧
+      S.apply s tr.doc = .ok tr1.doc := by
+  have h' : tr.planned (fun st => st.replaceF S f t sl) = some tr1 := h
+  obtain ⟨st', hrun, htr⟩ := Tr.planned_some h'
+  obtain ⟨r, hr, hstep⟩ := PSt.replaceF_spec S { tr := tr } st' f t sl hrun
+  simp only at hr hstep
+  cases r with
+  | none =>
+    simp only at hstep
+    have e : tr1.hist = tr.hist ++ [] := by rw [← htr, hstep]; simp
+    exact Or.inl ⟨appended_eq e, by rw [← htr, hstep]⟩
+  | some s =>
+    simp only at hstep
+    rw [htr] at hstep
+    obtain ⟨e, ha⟩ := Tr.step_hist hlen hstep
+    exact Or.inr ⟨s, hr, appended_eq e, ha⟩
+
+/-- what is asked of the step a `replace` recorded: the emitted slice is in normal form (no empty text node, no
+    adjacent text nodes with equal marks); for a `ReplaceAroundStep` the fit guard `gapFitsBack` of the inverse.
+    Both are Boolean functions of the recorded step and the document it was applied to. -/
+def RecordedReplaceOk (S : Schema) (s : Step) (d : Node) : Prop :=
+  match s with
+  | .replace _ _ sl _ => fnorm sl.content = true
+  | .replaceAround f t gf gt sl _ _ => fnorm sl.content = true ∧ gapFitsBack S d f t gf gt = true
+  | _ => True
+
+instance (S : Schema) (s : Step) (d : Node) : Decidable (RecordedReplaceOk S s d) := by
+  unfold RecordedReplaceOk; split <;> infer_instance
+
+/-- **the family guard of a step `replace_step` answered**, from: the shape facts and the payload validity of the
+    emitted slice (C11, by request class), the document valid and in normal form, the schema `textStableB`
+    (the payload of a replace-around answer with the gap content in place: `C11.aroundPayload_of_norm`), the new
+    document BMP, and `RecordedReplaceOk` -/
+theorem fitted_familyGuard (S : Schema) (hst : PM.FromDom.textStableB S = true) (doc doc' : Node) (f t : Nat)
+    (req : Slice) (hv : C01.Valid S doc) (hn : fnorm doc.kids = true) (s : Step)
+    (hr : replaceStep S doc f t req = .ok (some s))
+    (hwf : StepWF s = true ∧
+      (∀ F T G1 G2 sl' ins b, s = .replaceAround F T G1 G2 sl' ins b → aroundShape F T G1 G2 sl' ins = true))
+    (hp : ∃ sl', s.sliceOf = some sl' ∧ openValid S sl'.openStart sl'.openEnd sl'.content = true)
+    (hb : bmpDoc doc' = true) (hok : RecordedReplaceOk S s doc) : FamilyGuard S s doc doc' := by
+  have hal := undoAligned_of_bmp s doc' hb
+  rcases replaceStep_range S doc f t req s hr with ⟨T, sl', rfl, _⟩ | ⟨T, G2, sl', ins, rfl, _⟩
+  · obtain ⟨sl2, hs2, hval⟩ := hp
+    simp only [Step.sliceOf, Option.some.injEq] at hs2
+    subst hs2
+    exact ⟨hok, hval, hal⟩
+  · have hshape := hwf.2 _ _ _ _ _ _ _ rfl
+    simp only [aroundShape, Bool.and_eq_true, decide_eq_true_eq] at hshape
+    obtain ⟨⟨⟨⟨hwf', hins⟩, g1⟩, g2⟩, g3⟩ := hshape
+    have hpa := PM.C11.aroundPayload_of_norm S hst doc f t req hv hn _ hr hwf.1 hp
+      (by
+        intro sl2 hs2
+        simp only [Step.sliceOf, Option.some.injEq] at hs2
+        subst hs2
+        exact hok.1) _ _ _ _ _ _ _ rfl
+    exact ⟨hok.1, hwf', hins, ⟨g1, g2, g3⟩, hpa, fun hb' => by simp at hb', hok.2, hal⟩
+
+/-- the classes of `replace(from, to, slice)` requests covered: a **deletion** (`Slice.empty`); **typing /
+    inserting inline leaves** (a closed slice of valid leaf / text nodes); a well-formed slice that passes the
+    executable check `Slice.looseValid`, or **any slice cut from a valid document** (`src.slice a b`: what every
+    caller that copies content hands to `replace`) — these two with the decidable run hypothesis `unplacedWfRun`
+    of `C11.fit_emits_wf` (the unplaced rest of the slice stays well-formed while the Fitter runs) -/
+def ReplaceKind (S : Schema) (d : Node) (f t : Nat) (sl : Slice) : Prop :=
+  sl = Slice.empty ∨ (sl.inlineLeaves S = true ∧ sl.closedValid S = true) ∨
+  (sl.looseValid S = true ∧ sl.wf = true ∧ unplacedWfRun S d f t sl = true) ∨
+  ((∃ src a b, C01.Valid S src ∧ src.slice a b = .ok sl) ∧ unplacedWfRun S d f t sl = true)
+
+/-- structural edits, node-level edits, mark operations, and `replace` -/
+def editOp : Op → Bool
+  | .replace .. => true
+  | op => mixedOp op
+
+/-- what is asked of an operation of an editing history.  `replace(f, t, slice)`: `f ≤ t`; the current document's
+    element nodes have creatable types and attributes (`nodeAttrsOK`); the request is of one of the classes
+    `ReplaceKind`; the new document has no text outside the BMP; `RecordedReplaceOk` of the recorded step.  Every
+    other operation: `MixedResidual`. -/
+def EditResidual (S : Schema) (op : Op) (tr tr1 : Tr) : Prop :=
+  match op with
+  | .replace f t sl => f ≤ t ∧ S.nodeAttrsOK tr.doc = true ∧ ReplaceKind S tr.doc f t sl ∧
+      bmpDoc tr1.doc = true ∧ HistAll (fun s d _ => RecordedReplaceOk S s d) (appended tr tr1) tr1.doc
+  | op => MixedResidual S op tr tr1
+
+/-- **`replace(f, t, slice)` of one of the classes `ReplaceKind` as a whole operation**: `OpResidual` — the full family
+    guard of the recorded step — from `EditResidual` -/
+theorem replaceOp_residual (S : Schema) (hdet : PM.C11.detB S = true) (hfill : S.fillersOKB = true)
+    (hwrap : S.wrapOKB = true) (hlab : S.labelsOKB = true) (hleaf : PM.FromDom.leafOkB S = true)
+    (hts : textStableC S = true) (hcl : S.closableB = true) (hst : PM.FromDom.textStableB S = true)
+    (tr tr1 : Tr) (hlen : tr.steps.length = tr.docs.length) (hI : FamilyInv S tr.doc) (f t : Nat) (sl : Slice)
+    (h : tr.runOp S (.replace f t sl) = some tr1) (hres : EditResidual S (.replace f t sl) tr tr1) :
+    OpResidual S (.replace f t sl) tr tr1 := by
+  obtain ⟨hft, hattrs, hkind, hb, hrec⟩ := hres
+  show HistAll (FamilyGuard S) (appended tr tr1) tr1.doc
+  rcases replaceOp_recorded S tr tr1 hlen f t sl h with ⟨e, _⟩ | ⟨s, hr, e, _⟩
+  · rw [e]; trivial
+  · rw [e] at hrec ⊢
+    refine ⟨?_, trivial⟩
+    have hok : RecordedReplaceOk S s tr.doc := hrec.1
+    have hv : C01.Valid S tr.doc := hI.1
+    show FamilyGuard S s tr.doc tr1.doc
+    rcases hkind with rfl | ⟨hsl, hslv⟩ | ⟨hloose, hwf, hrun⟩ | ⟨⟨src, a, b, hsrc, hcut⟩, hrun⟩
+    · exact fitted_familyGuard S hst tr.doc tr1.doc f t _ hv hI.2 s hr
+        (PM.C11.delete_emits_wf S hdet hfill tr.doc f t hv hattrs hft s hr)
+        (PM.C11.delete_emits_valid_payload S hdet hleaf tr.doc f t hv hattrs s hr) hb hok
+    · exact fitted_familyGuard S hst tr.doc tr1.doc f t _ hv hI.2 s hr
+        (PM.C11.insertInline_emits_wf S hdet hfill hwrap tr.doc f t sl hsl hv hattrs hft s hr)
+        (PM.C11.insertInline_emits_valid_payload S hdet hfill hwrap hlab hleaf hts hcl tr.doc f t sl hsl hslv hv
+          hattrs s hr) hb hok
+    · exact fitted_familyGuard S hst tr.doc tr1.doc f t _ hv hI.2 s hr
+        (PM.C11.fit_emits_wf S hdet hfill hwrap hlab tr.doc f t sl hv hattrs hwf hft hrun s hr)
+        (PM.C11.fit_emits_valid_payload S hdet hfill hwrap hlab hleaf hts hcl tr.doc f t sl hloose hv hattrs hrun
+          s hr) hb hok
+    · exact fitted_familyGuard S hst tr.doc tr1.doc f t _ hv hI.2 s hr
+        (PM.C11.fit_emits_wf S hdet hfill hwrap hlab tr.doc f t sl hv hattrs (sliceKids_wf _ _ _ _ hcut) hft hrun s
+          hr)
+        (PM.C11.fit_emits_valid_payload_cut S hdet hfill hwrap hlab hleaf hts hcl tr.doc f t src a b sl hsrc hcut hv
+          hattrs hrun s hr) hb hok
+
+/-- one operation of an editing history on a BMP document: `OpResidual` holds and the new document is again BMP -/
+theorem editOp_residual (S : Schema) (htr : compatTransB S = true) (htl : TextLoop S)
+    (hdet : PM.C11.detB S = true) (hfill : S.fillersOKB = true)
+    (hwrap : S.wrapOKB = true) (hlab : S.labelsOKB = true) (hleaf : PM.FromDom.leafOkB S = true)
+    (hts : textStableC S = true) (hcl : S.closableB = true) (hst : PM.FromDom.textStableB S = true)
+    (op : Op) (tr tr1 : Tr) (hop : editOp op = true)
+    (hlen : tr.steps.length = tr.docs.length) (hml : tr.maps.length = tr.steps.length)
+    (hI : FamilyInv S tr.doc) (hb : bmpDoc tr.doc = true)
+    (h : tr.runOp S op = some tr1) (hres : EditResidual S op tr tr1) :
+    OpResidual S op tr tr1 ∧ bmpDoc tr1.doc = true := by
+  cases op with
+  | replace f t sl =>
+    exact ⟨replaceOp_residual S hdet hfill hwrap hlab hleaf hts hcl hst tr tr1 hlen hI f t sl h hres, hres.2.2.2.1⟩
+  | _ => exact mixedOp_residual S htr htl _ tr tr1 hop hlen hml hI hb h hres
+
+/-- on a BMP document, an editing run meets `OpResidual` -/
+theorem editOps_residual (S : Schema) (htr : compatTransB S = true) (htl : TextLoop S)
+    (hdet : PM.C11.detB S = true) (hfill : S.fillersOKB = true)
+    (hwrap : S.wrapOKB = true) (hlab : S.labelsOKB = true) (hleaf : PM.FromDom.leafOkB S = true)
+    (hts : textStableC S = true) (hcl : S.closableB = true) (hst : PM.FromDom.textStableB S = true) :
+    ∀ (ops : List Op) (tr : Tr), tr.steps.length = tr.docs.length → tr.maps.length = tr.steps.length →
+    FamilyInv S tr.doc → bmpDoc tr.doc = true →
+    (∀ op ∈ ops, editOp op = true) → OpsAll S (EditResidual S) tr ops → OpsAll S (OpResidual S) tr ops
+  | [], _, _, _, _, _, _, _ => trivial
+  | op :: ops, tr, hlen, hml, hI, hb, hall, hres => by
+    simp only [OpsAll] at hres ⊢
+    cases h1 : tr.runOp S op with
+    | none => trivial
+    | some tr1 =>
+      simp only [h1] at hres ⊢
+      have hop := hall op (List.mem_cons_self ..)
+      obtain ⟨hr1, hb1⟩ := editOp_residual S htr htl hdet hfill hwrap hlab hleaf hts hcl hst op tr tr1 hop hlen hml
+        hI hb h1 hres.1
+      refine ⟨hr1, ?_⟩
+      obtain ⟨h2, e1, l1, n1, r1⟩ := (Tr.runOp_grows op h1).hist hlen
+      have g1 := op_family S op tr tr1 hlen hI h1 hr1
+      rw [appended_eq e1] at g1
+      have hI1 : FamilyInv S tr1.doc :=
+        (chain_of_invariant S (FamilyInv S) (FamilyGuard S) (family_step S htr htl) h2 tr1.doc
+          (by rw [n1]; exact hI) r1 g1).2
+      exact editOps_residual S htr htl hdet hfill hwrap hlab hleaf hts hcl hst ops tr1 l1
+        ((Tr.runOp_grows op h1).maps_len hml) hI1 hb1
+        (fun o ho => hall o (List.mem_cons_of_mem _ ho)) hres.2
+
+/-- **an editing history is undone exactly** — structural edits (`split`, `join`, `lift`, `wrap`, `set_node_markup`,
+    `set_block_type` to plain types), node-level edits, mark operations, **deletions, typing / inserting inline
+    leaves, and `replace` with a loosely valid slice (every slice cut from a valid document)**, in any order.
+    Schema guards (all Boolean, all true of the bundled family); `doc` valid, in normal form, no text outside the
+    BMP; per operation `EditResidual`: for `replace(f, t, slice)` facts about the operation's arguments on the
+    current document (`f ≤ t`, `nodeAttrsOK`, the class of the slice with its run hypothesis `unplacedWfRun`), about
+    the new document (BMP) and about the recorded step (`RecordedReplaceOk`: normal form of the emitted slice;
+    `gapFitsBack` for a replace-around answer) — nothing about the Fitter's internal state; no payload, shape or
+    pair-alignment hypothesis. -/
+theorem editHistory_undo_bmp (S : Schema) (htr : compatTransB S = true) (htl : TextLoop S)
+    (hdet : PM.C11.detB S = true) (hfill : S.fillersOKB = true)
+    (hwrap : S.wrapOKB = true) (hlab : S.labelsOKB = true) (hleaf : PM.FromDom.leafOkB S = true)
+    (hts : textStableC S = true) (hcl : S.closableB = true) (hst : PM.FromDom.textStableB S = true)
+    (doc : Node) (ops : List Op) (tr' : Tr) (hd : S.checkNode doc = true) (hn : fnorm doc.kids = true)
+    (hb : bmpDoc doc = true) (hall : ∀ op ∈ ops, editOp op = true)
+    (h : (Tr.init doc).runOps S ops = some tr')
+    (hres : OpsAll S (EditResidual S) (Tr.init doc) ops) :
+    tr'.undo S = .ok doc ∧ FamilyInv S tr'.doc :=
+  opHistory_undo S htr htl doc ops tr' hd hn h
+    (editOps_residual S htr htl hdet hfill hwrap hlab hleaf hts hcl hst ops (Tr.init doc) rfl rfl ⟨hd, hn⟩ hb
+      hall hres)
+
 end PM.C04
